@@ -87,17 +87,13 @@ func awsPtrConst(v ssa.Value) (constant.Value, bool) {
 
 // mapLitKeys: constant string keys written into the map value v (a MakeMap in the same function).
 func mapLitKeys(v ssa.Value) []string {
-	mm, ok := resolve(v).(*ssa.MakeMap)
-	if !ok {
+	if v == nil {
 		return nil
 	}
+	ents, _ := mapLit(v)
 	var out []string
-	for _, r := range *mm.Referrers() {
-		if mu, ok := r.(*ssa.MapUpdate); ok && mu.Map == mm {
-			if k, isC := constOf(mu.Key); isC && k.Kind() == constant.String {
-				out = append(out, constant.StringVal(k))
-			}
-		}
+	for k := range ents {
+		out = append(out, k)
 	}
 	sort.Strings(out)
 	return out
